@@ -1,1 +1,17 @@
-fn main() { let _ = vcommon::Ctx::from_args(); }
+mod c21;
+mod c46;
+mod c47;
+
+fn main() {
+    let ctx = vcommon::Ctx::from_args();
+    ctx.watchdog(ctx.pick(900, 7200));
+    match ctx.prop.as_str() {
+        "C21" => c21::run(&ctx),
+        "C46" => c46::run(&ctx),
+        "C47" => c47::run(&ctx),
+        p => {
+            println!("INCONCLUSIVE vh-misc does not serve {p}");
+            std::process::exit(2);
+        }
+    }
+}
